@@ -556,10 +556,10 @@ def _root_name(e):
     return e.get('n') if e.get('k') == 'ref' else None
 
 
-def _always_advances(u, callee, pname):
+def _always_advances(u, callee, pname, nonterm=None):
     """Every path through callee leaves *pname at least one byte after where it found it (rules/curdiff.py)."""
     from .curdiff import moves_forward
-    return moves_forward(u, callee, pname, 1)
+    return moves_forward(u, callee, pname, 1, nonterm)
 
 
 def _span_of_current_byte(cfg, node, ev):
@@ -589,7 +589,7 @@ def _span_of_current_byte(cfg, node, ev):
 
 # ---- BND6 loop progress -----------------------------------------------------------------------------------------------
 
-def bnd6(units, R, functions=None):
+def bnd6(units, R, functions=None, nonterm=None):
     """Every cycle of the CFG of a parse-family / minify function contains a strictly positive step of an input
     cursor or loop counter (removing those steps leaves the loop body acyclic)."""
     from .bnd import parse_family, Analyzer, _cursor_params, _parse_buffer_record
@@ -650,7 +650,7 @@ def bnd6(units, R, functions=None):
                         for ai, a in enumerate(ev.node['args']):
                             a0 = strip_casts(a)
                             if a0.get('k') == 'un' and a0['op'] == '&' and ai < len(callee.params) and \
-                                    _always_advances(u, callee, callee.params[ai]['n']):
+                                    _always_advances(u, callee, callee.params[ai]['n'], nonterm):
                                 progress.add(nid)
                                 steps.append('%s advances %s' % (callee.name, expr_str(a0['e'])))
                     elif ev.kind == 'store' and ev.node['op'] == '=' and is_ref(ev.lhs):
